@@ -6,10 +6,10 @@
 From PGF Require Import Base.Prelude Model.Fdr Model.Results Model.ProteinGroups Model.Scoring Model.Competition
   Model.Rescue Model.Pipeline Proofs.PipelineProofs.
 
-(* two calls whose configuration objects agree on the competition's seen-set give the same result, whatever
-   razor tables, PEP cutoff, rescue cutoff or placeholder groups earlier calls left behind *)
+(* two calls give the same result whatever the two configuration objects hold: seen proteins (the competition clears the set before
+   it starts - since the repair of D15 - so what an aborted call left there is never read), razor tables, PEP cutoff, rescue cutoff,
+   placeholder groups *)
 Theorem C07_history_independent : forall me o a b l ka thr pc pis,
-  ps_seen a = ps_seen b ->
   snd (run me o a l ka thr pc pis) = snd (run me o b l ka thr pc pis).
 Proof. exact run_history_independent. Qed.
 Print Assumptions C07_history_independent.
@@ -26,6 +26,19 @@ Theorem C07_call_after_any_history : forall me h o l ka thr pc pis,
   snd (run me o (after_history me h) l ka thr pc pis) = snd (run me o fresh l ka thr pc pis).
 Proof. exact call_after_any_history. Qed.
 Print Assumptions C07_call_after_any_history.
+
+(* the same for histories in which any call may have been ABORTED at any point, leaving the object in an arbitrary state *)
+Theorem C07_call_after_aborted_calls : forall me h o l ka thr pc pis,
+  snd (run me o (after_steps me h) l ka thr pc pis) = snd (run me o fresh l ka thr pc pis).
+Proof. exact call_after_any_steps. Qed.
+Print Assumptions C07_call_after_aborted_calls.
+
+(* a pass that returns a result leaves the seen set empty whatever it found there *)
+Theorem C07_completed_pass_clears_seen : forall me o a s l rescue ka pc p1 p2 infos rows,
+  snd (one_pass me o a s l rescue ka pc p1 p2) = Ok (infos, rows) ->
+  ps_seen (fst (one_pass me o a s l rescue ka pc p1 p2)) = [].
+Proof. exact one_pass_clears_seen. Qed.
+Print Assumptions C07_completed_pass_clears_seen.
 
 (* without the razor option the razor tables are never read *)
 Theorem C07_razor_tables_unread_without_razor : forall rz sh c1 c2 md5 s sup l,
